@@ -95,6 +95,102 @@ theorem C16_concrete_writes_reserved (src : Pj.Project) (cfg : Gn.Config)
       simp only [List.cons_append, List.nil_append, List.mem_cons, List.not_mem_nil, or_false] at hp
       rcases hp with rfl | rfl | rfl | rfl <;> (constructor <;> (simp only []; decide +kernel))
 
+/-! ## the frame of a whole history -/
+
+/-- one step of a history: a run with its own sources, configuration, force flag, fault position, or a crash after
+    `k` operations of a regenerating run -/
+inductive Step (Src Cfg : Type) where
+  | run (src : Src) (cfg : Cfg) (forced : Bool) (fault : Option Nat)
+  | crash (src : Src) (cfg : Cfg) (k : Nat)
+
+def history {Src Cfg Key Content : Type} [DecidableEq Key] (S : R.Sys Src Cfg Key Content) (o : R.Out Key Content) :
+    List (Step Src Cfg) → R.Out Key Content
+  | [] => o
+  | .run src cfg forced fault :: rest => history S (R.run S src cfg forced fault o).2.2 rest
+  | .crash src cfg k :: rest => history S (R.crashed S src cfg k o) rest
+
+theorem applyOps_frame {Key Content : Type} (n : R.Name) (ops : List (R.Op Key Content)) (o : R.Out Key Content)
+    (h : ∀ op ∈ ops, ∀ m c, op = .write m c → m ≠ n) (hr : ∀ op ∈ ops, ∀ m, op ≠ .remove m) :
+    (R.applyOps o ops).files n = o.files n := by
+  unfold R.applyOps
+  induction ops generalizing o with
+  | nil => rfl
+  | cons op rest ih =>
+    simp only [List.foldl_cons]
+    rw [ih _ (fun op' h' => h op' (List.mem_cons_of_mem _ h')) (fun op' h' => hr op' (List.mem_cons_of_mem _ h'))]
+    cases op with
+    | write m c =>
+      have : m ≠ n := h _ (List.mem_cons_self) m c rfl
+      simp [R.applyOp, Ne.symm this]
+    | remove m => exact absurd rfl (hr _ (List.mem_cons_self) m)
+    | writeCache k => rfl
+    | removeCache => rfl
+
+theorem plan_frame {Src Cfg Key Content : Type} (S : R.Sys Src Cfg Key Content) (src : Src) (cfg : Cfg) (n : R.Name)
+    (hn : n ∉ (S.gen src cfg).map (·.1)) (ops : List (R.Op Key Content)) (hsub : ∀ op ∈ ops, op ∈ R.plan S src cfg)
+    (o : R.Out Key Content) : (R.applyOps o ops).files n = o.files n := by
+  apply applyOps_frame
+  · intro op hop m c he
+    rcases C16_plan_targets S src cfg op (hsub op hop) with h | h | ⟨p, hp, h⟩
+    · rw [h] at he; cases he
+    · rw [h] at he; cases he
+    · rw [h] at he
+      cases he
+      intro hmn
+      exact hn (List.mem_map.mpr ⟨p, hp, hmn⟩)
+  · intro op hop m he
+    rcases C16_plan_targets S src cfg op (hsub op hop) with h | h | ⟨p, _, h⟩ <;> (rw [h] at he; cases he)
+
+/-- **C16 over every history**: a name that no generation ever writes keeps its content (or its absence) through any
+    sequence of runs — forced or not, failing at any operation, killed after any number of operations, with sources and
+    configuration changing from step to step -/
+theorem C16_history_frame {Src Cfg Key Content : Type} [DecidableEq Key] (S : R.Sys Src Cfg Key Content) (n : R.Name)
+    (hn : ∀ src cfg, n ∉ (S.gen src cfg).map (·.1)) (steps : List (Step Src Cfg)) (o : R.Out Key Content) :
+    (history S o steps).files n = o.files n := by
+  induction steps generalizing o with
+  | nil => rfl
+  | cons st rest ih =>
+    cases st with
+    | run src cfg forced fault =>
+      simp only [history]
+      rw [ih]
+      unfold R.run
+      split
+      · rfl
+      · split
+        · rfl
+        · have hex : ∀ op ∈ R.executed (R.plan S src cfg) fault, op ∈ R.plan S src cfg := by
+            intro op hop
+            cases fault with
+            | none => exact hop
+            | some i => exact List.mem_of_mem_take hop
+          have := plan_frame S src cfg n (hn src cfg) _ hex o
+          cases fault with
+          | none => exact this
+          | some i => simp only []; split <;> exact this
+    | crash src cfg k =>
+      simp only [history]
+      rw [ih]
+      exact plan_frame S src cfg n (hn src cfg) _ (fun op hop => List.mem_of_mem_take hop) o
+
+/-- the modelled tool: whatever is in the output directory under a name other than the four binding files — the user's
+    `notes.ts`, `README.md`, a `types.tsx` — is never created, changed or removed by any history of runs -/
+theorem C16_concrete_history_frame (n : R.Name) (hn : n ∉ ["types.ts", "commands.ts", "events.ts", "index.ts"])
+    (steps : List (Step Pj.Project Gn.Config)) (o : R.Out (KS.View × Gn.Config) Str) :
+    (history TG.C08.concreteSys o steps).files n = o.files n := by
+  apply C16_history_frame
+  intro src cfg hmem
+  obtain ⟨p, hp, rfl⟩ := List.mem_map.mp hmem
+  have := C16_concrete_writes_reserved src cfg (.write p.1 p.2)
+    (by unfold R.plan; exact List.mem_cons_of_mem _ (List.mem_append_left _ (List.mem_map.mpr ⟨p, hp, rfl⟩)))
+  rcases this with h | h | ⟨m, c, he, hm, _⟩
+  · cases h
+  · cases h
+  · cases he
+    exact hn hm
+
+example : "notes.ts" ∉ ["types.ts", "commands.ts", "events.ts", "index.ts"] := by decide
+
 /-! non-vacuity / near misses -/
 example : specReserved "notes.ts" = false ∧ specReserved "types.tsx" = false ∧ specReserved ".write_test" = false ∧
     specReserved "mytypes.ts" = false ∧ specReserved "x_generated.md" = true ∧ specReserved "generated_old.ts" = true := by
